@@ -82,7 +82,40 @@ SigZ(f, A) ==
      [] f = "mpz_invert" -> A[3] = "0"
      [] OTHER -> FALSE
 
+(* ---- scalar arguments at the top of their type (counts, indices, exponents of 2^30 and more) ----                                                       *)
+(* TLC integers are 32-bit and 2^(2^30) is not a number anyone wants to build; for such scalars the documented result has a closed form as long as every     *)
+(* integer operand is shorter than 2^30 bits (all recorded operands are).  BigArg says which argument positions carry such a scalar.                         *)
+LOCAL Big(h) == ZBitLen(h) > 30
+RECURSIVE MFacZ(_, _)
+MFacZ(nz, mz) == IF ZLe(nz, "0") THEN "1" ELSE ZMul(nz, MFacZ(ZSub(nz, mz), mz))        \* n (n-m) (n-2m) ... over the positive terms (the driver keeps it to a few)
+BigScalar(f, A) ==
+   CASE f \in {"mpz_tdiv_q_2exp", "mpz_tdiv_r_2exp", "mpz_fdiv_q_2exp", "mpz_cdiv_q_2exp", "mpz_root", "mpz_nthroot"} -> Big(A[3])
+     [] f \in {"mpz_divisible_2exp_p", "mpz_tstbit", "mpz_scan0", "mpz_scan1", "mpz_clrbit"} -> Big(A[2])
+     [] f = "mpz_congruent_2exp_p" -> Big(A[3])
+     [] f = "mpz_rootrem" -> Big(A[4])
+     [] f \in {"mpz_mfac_uiui", "mpz_bin_uiui"} -> Big(A[2]) \/ Big(A[3])
+     [] f = "mpz_ui_pow_ui" -> Big(A[3])
+     [] OTHER -> FALSE
+PostZBig(f, A, O, r) ==
+   CASE f = "mpz_tdiv_q_2exp" -> O[1].v = "0"
+     [] f = "mpz_tdiv_r_2exp" -> O[1].v = A[2]
+     [] f = "mpz_fdiv_q_2exp" -> O[1].v = (IF ZIsNeg(A[2]) THEN "-1" ELSE "0")
+     [] f = "mpz_cdiv_q_2exp" -> O[1].v = (IF ZSgn(A[2]) > 0 THEN "1" ELSE "0")
+     [] f = "mpz_divisible_2exp_p" -> (r # 0) = (A[1] = "0")
+     [] f = "mpz_congruent_2exp_p" -> (r # 0) = (A[1] = A[2])
+     [] f = "mpz_tstbit" -> (r # 0) = ZIsNeg(A[1])                                   \* the sign extension
+     [] f = "mpz_scan0" -> r = (IF ZIsNeg(A[1]) THEN UMAX ELSE A[2])                   \* non-negative: every bit up there is 0, the first one is at the start index itself
+     [] f = "mpz_scan1" -> r = (IF ZIsNeg(A[1]) THEN A[2] ELSE UMAX)
+     [] f = "mpz_clrbit" -> ~ZIsNeg(A[1]) /\ O[1].v = A[1]                            \* (driven for non-negative values only)
+     [] f \in {"mpz_root", "mpz_nthroot"} ->                                          \* index above the bit length: the root is the sign
+           /\ O[1].v = ZFromInt(ZSgn(A[2])) /\ (f = "mpz_root" => ((r # 0) = ZLe(ZAbs(A[2]), "1")))
+     [] f = "mpz_rootrem" -> O[1].v = ZFromInt(ZSgn(A[3])) /\ O[2].v = ZSub(A[3], O[1].v)
+     [] f = "mpz_mfac_uiui" -> O[1].v = (IF A[2] = "0" THEN "1" ELSE MFacZ(A[2], A[3]))
+     [] f = "mpz_bin_uiui" -> O[1].v = (IF ZLt(A[2], A[3]) THEN "0" ELSE ZBin(A[2], ZMin(A[3], ZSub(A[2], A[3]))))     \* the driver keeps min(k, n-k) <= 2
+     [] f = "mpz_ui_pow_ui" -> A[2] \in {"0", "1"} /\ O[1].v = A[2]                    \* (driven with bases 0 and 1 only)
+
 PostZ(f, A, O, r, x) ==
+   IF BigScalar(f, A) THEN PostZBig(f, A, O, r) ELSE
    CASE \* ---- lifecycle
         f = "mpz_init" -> O[1].v = "0"
      [] f = "mpz_init2" -> O[1].v = "0" /\ O[1].al * 64 >= I(A[2])
